@@ -25,9 +25,22 @@ def mix_seed(base, label, index):
 
 
 class PRNG:
-    def __init__(self, seed):
+    def __init__(self, seed, tier="quick"):
         self.state = int(seed) & M64
         self.draws = 0
+        self.tier = tier
+        self.big = False
+
+    def decide_size_class(self):
+        """thorough tier: a quarter of the runs use larger batches and longer horizons"""
+        self.big = self.tier == "thorough" and self.chance(0.25)
+        return self.big
+
+    def npaths(self, choices):
+        return self.choice(list(choices) + ([16, 37, 64, 200] if self.big else []))
+
+    def nsteps(self, choices):
+        return self.choice(list(choices) + ([15, 25, 40, 80] if self.big else []))
 
     def u64(self):
         self.draws += 1
